@@ -185,25 +185,25 @@ func (c *Controller[R]) OpenGate(cfg GateConfig[R]) (g *Gate[R], t Transfer, err
 		return g, t, err
 	}
 
-	var exists bool
+	var existing *region[R]
 	for _, reg := range c.regions {
 		// Check if there is an existing region that overlaps with that time range.
 		if reg.timeRange.OverlapsWith(cfg.TimeRange) {
 			// v1 optimization: one writer can only overlap with one region at any given time.
-			if exists {
+			// Checked before a gate is opened on any region: an open that fails must
+			// not leave a gate behind that nobody holds (and that may have taken
+			// control of the first region).
+			if existing != nil {
 				err = errors.Newf("encountered multiple control regions for time range %s", cfg.TimeRange)
 				c.L.DPanic(err.Error())
 				return nil, t, err
 			}
-			// If there is an existing region, we open a new gate on that region.
-			if g, t, err = reg.open(cfg); err != nil {
-				return
-			}
-			exists = true
+			existing = reg
 		}
 	}
-	if exists {
-		return g, t, err
+	if existing != nil {
+		// If there is an existing region, we open a new gate on that region.
+		return existing.open(cfg)
 	}
 	var res R
 	if res, err = cfg.OpenResource(); err != nil {
